@@ -9,7 +9,7 @@ import ast
 
 from .core import Unsupported, find_def
 from .driver_py import dotted
-from .lazy import Inliner, normalise
+from .lazy import Inliner, canon, normalise
 
 OUTPUTS = ["GenNBC.v"]
 SRC = "pyhms/utils/clusterization.py"
@@ -21,7 +21,7 @@ def bad(node, what):
 
 
 def u(e):
-    return ast.unparse(e)
+    return ast.unparse(canon(e))
 
 
 def translate(repo):
@@ -51,7 +51,7 @@ def translate(repo):
     if len(ret) != 1 or not isinstance(ret[0].value, ast.Tuple) or len(ret[0].value.elts) != 2:
         bad(fn, "_find_nearest_better does not return (distance, individual)")
     d_e, p_e = (inl.inline(x, ret[0]) for x in ret[0].value.elts)
-    norms = f"np.linalg.norm({an[1]}.genome - np.array([ind.genome for ind in {an[2]}]), axis=1)"
+    norms = f"np.linalg.norm({an[1]}.genome - np.array([_c0.genome for _c0 in {an[2]}]), axis=1)"
     if u(d_e) != f"{norms}[np.argmin({norms})]" or u(p_e) != f"{an[2]}[np.argmin({norms})]":
         bad(ret[0], "_find_nearest_better is not (norms[argmin(norms)], better[argmin(norms)]) with norms = np.linalg.norm(ind.genome - genomes of the candidates, axis=1)")
 
@@ -87,7 +87,8 @@ def translate(repo):
                 or [u(x) for x in t.handlers[0].body] != ["pass"] or t.orelse or t.finalbody:
             bad(t, "node creation is not `try: create_node(...) except DuplicatedNodeIdError: pass`")
     stmt_of_cn = tries[0] if tries else next(s for s in lp.body if any(n is cn for n in ast.walk(s)))
-    kw = {k.arg: k.value for k in cn.keywords}
+    cn_stmt = next(s for s in ast.walk(lp) if isinstance(s, ast.Expr) and s.value is cn)
+    kw = {k.arg: linl.inline(k.value, cn_stmt) for k in cn.keywords}
     if cn.args or set(kw) != {"identifier", "data", "parent"} or u(kw["identifier"]) != f"get_individual_id({iv})":
         bad(cn, "loop node is not create_node(identifier=id(ind), data=..., parent=...)")
     data = kw["data"]
@@ -128,9 +129,9 @@ def translate(repo):
     ncand = cands(cand)
 
     # ------------------------------------------------ distances / _find_root_nodes / cluster
-    fn = find_def(mod, "distances", CLS)
+    fn = normalise(find_def(mod, "distances", CLS))
     r = [s for s in fn.body if isinstance(s, ast.Return)]
-    if len(r) != 1 or u(r[0].value) != "[node.data['distance'] for node in self.tree.all_nodes() if not np.isinf(node.data['distance'])]":
+    if len(r) != 1 or u(Inliner(fn, SRC).inline(r[0].value, r[0])) != "[_c0.data['distance'] for _c0 in self.tree.all_nodes() if not np.isinf(_c0.data['distance'])]":
         bad(fn, "distances is not the finite edge lengths of all nodes in tree order")
     fn = normalise(find_def(mod, "_find_root_nodes", CLS))
     inl = Inliner(fn, SRC)
@@ -144,7 +145,7 @@ def translate(repo):
     nv = v.generators[0].target.id
     c = v.generators[0].ifs[0]
     mean = "(np.mean(self.distances) if self.distances else 0.0)"
-    corr = "(1 if not self.use_correction else self._get_correction_factor())"
+    corr = "(self._get_correction_factor() if self.use_correction else 1)"
     want_thr = f"{mean} * self.distance_factor * {corr}"
     if not (isinstance(c, ast.Compare) and len(c.ops) == 1):
         bad(c, "cut test")
@@ -156,8 +157,10 @@ def translate(repo):
     else:
         bad(c, "cut test is not `edge length > mean(distances) * distance_factor * correction` (strict; mean 0.0 for a single node)")
     fn = find_def(mod, "cluster", CLS)
-    b = [u(s) for s in fn.body if not (isinstance(s, ast.Expr) and isinstance(s.value, ast.Constant))]
-    if b != ["self._prepare_spanning_tree()", "return [node.data['individual'] for node in self._find_root_nodes()]"]:
+    body = [s for s in fn.body if not (isinstance(s, ast.Expr) and isinstance(s.value, ast.Constant))]
+    temps = [s for s in body[1:-1] if not (isinstance(s, (ast.Assign, ast.AnnAssign)) and isinstance(s.targets[0] if isinstance(s, ast.Assign) else s.target, ast.Name))]
+    if len(body) < 2 or ast.unparse(body[0]) != "self._prepare_spanning_tree()" or temps or not isinstance(body[-1], ast.Return) \
+            or u(Inliner(fn, SRC).inline(body[-1].value, body[-1])) != "[_c0.data['individual'] for _c0 in self._find_root_nodes()]":
         bad(fn, "cluster() is not: build the spanning tree, return the individuals of the cut nodes in order")
 
     out = ["(* GENERATED from pyhms/utils/clusterization.py by hv/translate/nbc_py.py — do not edit *)", "From Coq Require Import ZArith List Bool Arith.",
